@@ -193,6 +193,18 @@ def _check(task):
             devs.append((abs(plain - exp) / np.sqrt(tol * scale * G * G), "superpose n=%d" % n))
             if abs(plain - exp) > 4 * tol + 1e-9:
                 probs.append("superpose(atom_indices subset): alignment atoms not at the minimum")
+            # the trajectory superposed on one of ITS OWN frames, with different atoms on the two sides: atoms 0..n-1 (conformation X) of every
+            # frame onto atoms n..2n-1 (conformation Y) of frame 0
+            both0 = np.vstack([A, B]); Rm2 = _rot(rs)
+            both1 = both0 @ Rm2.T + rs.uniform(-2, 2, size=3)
+            ts = md.Trajectory(np.stack([both0, both1]).astype(np.float32), _top(2 * n))
+            target = ts.xyz[0, n:].astype(np.float64).copy()
+            ts.superpose(ts, 0, atom_indices=np.arange(n), ref_atom_indices=np.arange(n, 2 * n))
+            for fr in range(2):
+                plain = float(((ts.xyz[fr, :n].astype(np.float64) - target) ** 2).sum(1).mean())
+                devs.append((abs(plain - exp) / np.sqrt(tol * scale * G * G), "self-reference n=%d" % n))
+                if abs(plain - exp) > 4 * tol + 1e-9:
+                    probs.append("superpose on a frame of the same trajectory with ref_atom_indices != atom_indices: alignment atoms not at the minimum (frame %d)" % fr)
             dd0 = np.linalg.norm(A2[:, None] - A2[None], axis=-1); dd1 = np.linalg.norm(t3.xyz[0].astype(np.float64)[:, None] - t3.xyz[0][None], axis=-1)
             if np.abs(dd0 - dd1).max() > 2e-5 * (1 + mag):
                 probs.append("superpose(atom_indices subset): passengers not moved rigidly")
